@@ -28,7 +28,7 @@ var ValLib = []ValLang{
 	{`^$`, []string{""}, []string{"x", " "}},
 	{`(?i)|nowrap`, []string{"", "nowrap", "anything <at> \"all\""}, nil},
 	{`^(?:[\p{L}\p{N}\s\-_',\[\]!\./\\\(\)]*)$`, []string{"Hello, world!", "it's [ok] (really)", "", "Größe 12"}, []string{"a<b", `say "x"`, "a=b", "a&b", "a;b"}},
-	{`^([\s\p{L}\p{N}_-]+)$`, []string{"a", "a b", "foo_bar-1 x", "é"}, []string{"", "a.b", "a<b", "a,b"}},
+	{`^([\s\p{L}\p{N}_-]+)$`, []string{"a", "a b", "foo_bar-1 x", "é", " a", "a b ", "\ta\n"}, []string{"", "a.b", "a<b", "a,b"}},
 }
 
 func init() {
